@@ -171,7 +171,7 @@ def run(ctx):
         for e in vlib.iter_ndjson(trace):
             if e.get("e") == "twin":
                 twins[e["what"]] = twins.get(e["what"], 0) + 1
-        if len(runs) >= 100 and len(twins) < 3:
+        if len(runs) >= 100 and len(twins) < 4:
             raise vlib.Infra("vacuity: twin relations observed: %s" % sorted(twins))
         ctx.extra["scenarios"] = {k: {"runs": v[0], "without_error": v[1]} for k, v in sorted(per.items())}
         ctx.extra["twin_relations_observed"] = twins
@@ -183,7 +183,7 @@ def run(ctx):
                                            "families": ["normal", "exponential", "poisson", "geometric", "categorical", "negative binomial (r = 1, 7/2, 2/5)",
                                                         "translation wrapper around normal", "vector-normal (2-d, grid 3x3)"],
                                            "modes": ["weighted", "unweighted", "batch", "clone", "all log-weights shifted by -800 / +800 / -5000 (weighted), -800 (batch)"], "bounds": "sigmaMin 1e-3 / 1.5, lambdaMax 100 / 0.5"},
-                           "em": {"trajectories": b["runs"], "scenarios": 25, "epsilon": [1e-8, 1e-4, 1e-2], "maxSteps": [-1, 1, 3, 8]}}
+                           "em": {"trajectories": b["runs"], "scenarios": 28, "epsilon": [1e-8, 1e-4, 1e-2], "maxSteps": [-1, 1, 3, 8]}}
     ctx.extra["estimator_runs"] = summ["estimator_runs"]
     ctx.assumptions += ["NumericEstimator is not covered by the closed-form contract; logistic regression is covered by the stationarity events of EMTrace",
                         "the recomputed likelihood uses the distributions' own LogPdf (decided by C14/C15)"]
